@@ -63,6 +63,26 @@ def writer_table(b):
     return out
 
 
+def writer_pairing(b):
+    """(keys not followed by a value write, value writes not preceded by a key) in evaluation order — both must be 0: a key without
+    its value, or a value without its key, corrupts every following field of the message"""
+    pending, lone_keys, lone_vals = False, 0, 0
+    for n in _eval_order(b["body"]):
+        if n.get("k") != "mcall":
+            continue
+        if n.get("name") == "write_pbf_key":
+            if pending:
+                lone_keys += 1
+            pending = True
+        elif n.get("name") in WRITE_CLASS:
+            if not pending:
+                lone_vals += 1
+            pending = False
+    if pending:
+        lone_keys += 1
+    return lone_keys, lone_vals
+
+
 def _eval_order(n):
     """post-order (receiver and arguments before the call itself)"""
     for c in ir.children(n):
@@ -255,7 +275,10 @@ def pbf_rules(ck, P, rule="R-PBF"):
         ck.check(rt == spec, rule, msg + "|reader", "reader accepts exactly the MVT 2.1 fields of %s: %s" % (msg, rt),
                  "reader table %s differs from MVT 2.1 %s" % (rt, spec), ir.loc(rb[0]))
         bad = {f: v for f, v in wt.items() if spec.get(f) != v and not (spec.get(f, (None,))[0] == v[0] and spec[f][1] == "bytes" and v[1] == "bytes")}
-        ck.check(not bad and set(wt) <= set(spec) and len(wt) >= len(spec) - 1, rule, msg + "|writer", "writer emits MVT 2.1 fields with the spec's wire types: %s" % wt,
+        lk, lv = writer_pairing(wb[0])
+        ck.check(lk == 0 and lv == 0, rule, msg + "|key-value-pairs", "every field key is followed by its value and every value is preceded by its key",
+                 "%d key(s) without a value and %d value(s) without a key in the writer of %s" % (lk, lv, msg), ir.loc(wb[0]))
+        ck.check(not bad and set(wt) <= set(spec) and (set(wt) == set(spec) or msg == "value"), rule, msg + "|writer", "writer emits MVT 2.1 fields with the spec's wire types: %s" % wt,
                  "writer table %s disagrees with MVT 2.1 %s" % (wt, spec), ir.loc(wb[0]))
         ck.check(all(rt.get(f) == v for f, v in wt.items()), rule, msg + "|agree", "every written (field, wire, codec) is read back with the matching decoder",
                  "writer/reader codec mismatch: %s vs %s" % (wt, rt), ir.loc(wb[0]))
